@@ -273,6 +273,32 @@ fn v1_responses() -> Result<Vec<(String, Vec<u8>)>, String> {
         }
         out.push((cmd.to_string(), r));
     }
+    // Unusual but legal: the protected part itself mentions "Checksum: " (a BPSV comment line).
+    // Made from the server's versions response; the epilogue line is recomputed over the new
+    // protected bytes. Kept only when the parser accepts it.
+    let base = out.iter().find(|(c, _)| c.ends_with("/versions")).map(|(_, r)| r.clone());
+    if let Some(base) = base {
+        for (name, line) in [
+            ("versions+comment-mentioning-checksum", &b"## Checksum: SHA-256 over everything before the last line\n"[..]),
+            ("versions+comment-with-64-hex-digits", &b"## Checksum: 0123456789abcdef0123456789abcdef0123456789abcdef0123456789abcdef\n"[..]),
+        ] {
+            let Some(at) = checks::v1_layout(&base) else { continue };
+            let Some(seqn) = base.windows(7).position(|w| w == b"## seqn") else { continue };
+            let Some(eol) = base[seqn..at].iter().position(|&b| b == b'\n') else { continue };
+            let mut r = base[..seqn + eol + 1].to_vec();
+            r.extend_from_slice(line);
+            r.extend_from_slice(&base[seqn + eol + 1..at]);
+            let sum = hex::encode(<sha2::Sha256 as sha2::Digest>::digest(&r));
+            r.extend_from_slice(b"Checksum: ");
+            r.extend_from_slice(sum.as_bytes());
+            r.extend_from_slice(b"\r\n");
+            // (whether the parser *finds* the checksum is not asked here: if it does not, every flip below is accepted and reported)
+            let accepted = cascette_protocol::mime_parser::parse_v1_mime_response(&r).is_ok();
+            if checks::v1_layout(&r).is_some() && accepted {
+                out.push((name.to_string(), r));
+            }
+        }
+    }
     Ok(out)
 }
 
@@ -336,7 +362,7 @@ fn main() {
     );
     ck.assume("reference MD5 / lookup3 in vh_engine::refimpl are correct (pinned by published vectors in vh-selftest); SHA-256 of the sha2 crate is used only to confirm that the server's checksum line covers exactly the bytes before it");
     ck.assume("an acceptance is reported only when the reference hash of the bytes the loader saw disagrees with the stored hash it saw; agreeing cases (true collisions) are counted in class ref-consistent");
-    ck.assume("archive-index toc_hash (documented as unchecked), the first_key fields of the encoding page index, the padding byte 23 of an update entry and cache values above 1 MiB are outside the protected regions");
+    ck.assume("archive-index toc_hash (documented as unchecked), the first_key fields of the encoding page index and the padding byte 23 of an update entry are outside the protected regions; cache values above 1 MiB occur only in the fixed cases of section caches-around-100MiB");
     ck.assume("UpdateEntry keeps the status as an enum: a raw status byte that reads back as the same status yields an entry equal to the accepted original and is counted (class status-byte-alias-of-same-entry), not reported");
     let bad = vh_engine::refimpl::self_test();
     for b in &bad {
@@ -737,7 +763,7 @@ fn main() {
         ck.run(
             Section::enumerate(
                 "v1-flips",
-                "exhaustive: every single-bit flip of every byte before the `Checksum:` line, and every substitution of one checksum hex digit by another hex digit (either case), for the responses of cascette_ribbit::tcp::v1::handle_v1_command to summary / versions / cdns / bgdl; through parse_v1_mime_response",
+                "exhaustive: every single-bit flip of every byte before the `Checksum:` line, and every substitution of one checksum hex digit by another hex digit (either case), for the responses of cascette_ribbit::tcp::v1::handle_v1_command to summary / versions / cdns / bgdl and for versions responses whose BPSV body carries a comment line containing the text `Checksum: ` (epilogue recomputed); through parse_v1_mime_response",
                 move || {
                     let r1 = r1.clone();
                     Box::new((0..r1.len()).flat_map(move |i| {
@@ -782,6 +808,16 @@ fn main() {
     ck.run(Section::pbt("hooks-direct", tier.pick(6000, 600_000), caches::hooks_strategy, caches::check_hooks).shards(16));
     ck.run(Section::pbt("cac-sequences", tier.pick(6000, 400_000), caches::cac_strategy, caches::check_cac).shards(16));
     ck.run(Section::pbt("ml-sequences", tier.pick(5000, 300_000), caches::ml_strategy, caches::check_ml).shards(16));
+
+    ck.run(
+        Section::enumerate(
+            "caches-around-100MiB",
+            "fixed cases with one value of exactly 100 MiB and one of 100 MiB + 1 byte (Md5ValidationHooks::should_skip_validation's threshold): the hooks called directly, ContentAddressedCache over memory and over disk (put_validated, get, corrupt the backing entry / file, get), MultiLayerCacheImpl with Md5 and with Ngdp hooks (put_with_validation, get, put_to_layer of a bit-flipped copy into layer 0, get_with_validation, put_with_validation of the flipped copy)",
+            || Box::new(caches::big_cases().into_iter()),
+            caches::check_big,
+        )
+        .shards(10),
+    );
 
     drop(quiet);
     let vac = VACUOUS.load(Ordering::Relaxed);
